@@ -178,7 +178,9 @@ class Design:
     nb = rng.choice([1, 1, 2])
     K = (1 << nb) - 1
     rset = set(readable)
-    xs = [sg for sg in self.sigs if sg.comp == '' and sg.stype is None and sg.name != 'reset' and sg.width >= w + K
+    # the implementation records a read of the WHOLE of x: use only signals the chain covers completely (width = w + K), so
+    # that the model's reads are the implementation's reads
+    xs = [sg for sg in self.sigs if sg.comp == '' and sg.stype is None and sg.name != 'reset' and sg.width == w + K
           and (sg.idx, 0, sg.width) in rset and not re.search(r'\[\d+\]$', sg.name)]
     sels = [(g, l, x) for (g, l, x) in readable if x == nb and (l, l + x) in self.leaf_bounds(self.sigs[g]) and self.sigs[g].name != 'reset']
     if not xs or not sels: return None
@@ -219,7 +221,7 @@ class Design:
     if rng.random() < 0.2:
       e = self.gen_var_index(w, readable)
       if e is not None: return e
-    if self.allow_helpers and rng.random() < 0.08:      # top-level blocks only (the text is rendered from the top)
+    if self.allow_helpers and rng.random() < 0.2:      # top-level blocks only (the text is rendered from the top)
       e = self.gen_var_slice(w, readable)
       if e is not None: return e
     cands = [r for r in readable if r[2] >= w]
@@ -330,6 +332,11 @@ class Design:
     lines = [f"    @{'update_ff' if b['kind'] == 'ff' else 'update'}", f"    def {b['name']}():"]
     if b.get('body'):          # a block whose Python text is not the assignment list spelled out (variable-index writes)
       return lines + ['      ' + ln for ln in b['body']]
+    if b.get('lam') is not None:
+      (t, e) = b['asgs'][0]
+      tgt = self.ref(comp, t)
+      return ['    if pv_variant == 0:', f'      {tgt} //= lambda: {self.py_expr(comp, b["lam"])}',
+              '    else:', f'      {tgt} //= lambda: {self.py_expr(comp, e)}']
     for i, (t, e) in enumerate(b['asgs']):
       tgt = self.ref(comp, t)
       st = b.get('styles', {}).get(i)
@@ -366,7 +373,8 @@ class Design:
     order = sorted([c for c in self.comps], key=lambda c: (-c.count('.') - (1 if c else 0), c))
     for comp in order:
       cls = self.cls_name(comp)
-      out += [f"class {cls}( {parent if comp == '' else 'Component'} ):", '  def construct( s ):']
+      has_lam = comp == '' and any(b.get('lam') is not None for b in self.blocks)
+      out += [f"class {cls}( {parent if comp == '' else 'Component'} ):", '  def construct( s, pv_variant=1 ):' if has_lam else '  def construct( s ):']
       lists_done = set()
       for s in self.sigs:
         if s.comp != comp or s.name in ('reset', 'clk'): continue
@@ -401,6 +409,8 @@ class Design:
           out.append(f"    s.add_constraints( U({byid[a]['name']}) < U({byid[b]['name']}) )")
       out.append('    pass')
       out.append('')
+    if any(b.get('lam') is not None for b in self.blocks):
+      out += [f'_pv_v0 = {self.cls_name("")}( 0 )', '_pv_v0.elaborate()', '']
     return '\n'.join(out)
 
   def cls_name(self, comp):
@@ -504,6 +514,27 @@ def generate(rng, max_blocks=8, with_children=True, with_regs=True, wide=False, 
       k = 1 if (rng.random() < 0.6 or many_wires) else rng.randint(1, min(2, len(regs)))
       mine, regs = regs[:k], regs[k:]
       make_ff(d, comp, mine)
+  # one comb block of the top component may be written as `s.x //= lambda: expr`, selected by a constructor parameter
+  # between two different lambdas; an instance with the OTHER lambda is elaborated first when the module is imported (what
+  # pymtl3 caches per class and block name must follow the lambda actually attached)
+  if rng.random() < 0.25:
+    top_in = [(sg.idx, l, h - l) for sg in d.sigs if sg.comp == '' and sg.kind == 'in' for (l, h) in d.leaf_bounds(sg)]
+    cands = [b for b in d.blocks if b['kind'] == 'comb' and b['comp'] == '' and not b.get('body') and len(b['asgs']) == 1
+             and b['asgs'][0][0][1] == 0 and b['asgs'][0][0][2] == d.sigs[b['asgs'][0][0][0]].width
+             and d.sigs[b['asgs'][0][0][0]].comp == '' and d.sigs[b['asgs'][0][0][0]].stype is None and not re.search(r'\[\d+\]$', d.sigs[b['asgs'][0][0][0]].name)
+             and 's.' in d.py_expr('', b['asgs'][0][1])]      # pymtl3 takes `s` from the lambda's closure: the text must mention a signal
+    wide_in = lambda w: [r for r in top_in if r[2] >= w]
+    cands = [b for b in cands if wide_in(d.sigs[b['asgs'][0][0][0]].width)]
+    if cands:
+      b = rng.choice(cands)
+      sg = d.sigs[b['asgs'][0][0][0]]
+      d.allow_helpers = False
+      g, lo, ww = rng.choice(wide_in(sg.width))
+      alt = ('r', g, lo + rng.randint(0, ww - sg.width), sg.width)
+      if rng.random() < 0.6: alt = ('b', rng.choice(['xor', 'and', 'add']), sg.width, alt, d.gen_expr(sg.width, top_in, 1))
+      b['lam'] = alt
+      b['name'] = '_lambda__s_' + sg.name
+      b['styles'] = {}
   return d
 
 def mark_available(d, s):
@@ -999,7 +1030,7 @@ def add_explicit(d, kind):
   'invert' (reverse one implicit edge that has no other path), 'cycle' (a pure explicit 2-cycle)"""
   rng = d.rng
   deps = py_deps(d)
-  combs = [b for b in d.blocks if b['kind'] == 'comb']
+  combs = [b for b in d.blocks if b['kind'] == 'comb' and not b.get('lam')]      # `//= lambda` blocks have no Python name
   pairs = [(a, b) for a in combs for b in combs if a['id'] < b['id'] and a['comp'] == b['comp']]
   rng.shuffle(pairs)
   for a, b in pairs:
